@@ -66,7 +66,10 @@ def make_line(p):
     if c == 'PointDir':
         return sm.Plucker.PointDir(P, Q), P, Q        # Q is the direction here
     if c == 'vw':
-        return sm.Plucker(np.cross(Q, P), Q), P, Q
+        v_, w_ = np.cross(Q, P), Q
+        if p.get('vwtype'):     # whole-number moment and direction held in a narrow element type (the values fit; their products need not)
+            v_, w_ = v_.astype(p['vwtype']), w_.astype(p['vwtype'])
+        return sm.Plucker(v_, w_), P, Q
     raise KeyError(c)
 
 
@@ -83,6 +86,8 @@ def _where(e):
 def run_line(ctx, p):
     sm = S()
     sig = dict(api='Plucker.' + p['ctor'])
+    if p.get('vwtype'):
+        sig['element_type'] = 'narrow'
     try:
         L, p0, d = make_line(p)
     except Exception as e:
@@ -490,6 +495,12 @@ def run(ctx):
         p = dict(ctor=ctor, P=P, Q=Q, x=point(rng), lams=[0.0, float(rng.uniform(-5, 5)), float(gen.sign(rng) * gen.logu(rng, 1e-3, 1e3))][:int(rng.integers(1, 4))] + [float(rng.uniform(-5, 5)) for _ in range(int(rng.integers(0, 3)))],
                  lamform=['list', 'tuple', 'array', 'row', 'col'][rng.integers(5)])
         drive(RUNNERS, ctx, 'line', p)
+        if rng.random() < 0.05:
+            # small whole numbers: the moment Q x P and the direction fit an int8 / float16 array, the squares and products formed
+            # from them inside pp / ppd / closest do not
+            Pi, Qi = rng.integers(-9, 10, size=3).astype(float), rng.integers(-7, 8, size=3).astype(float)
+            if np.any(Qi) and np.max(np.abs(np.cross(Qi, Pi))) <= 127:
+                drive(RUNNERS, ctx, 'line', dict(p, ctor='vw', P=Pi, Q=Qi, vwtype=['int8', 'float16', 'float32', 'int64'][rng.integers(4)]))
         if rng.random() < 0.5:
             drive(RUNNERS, ctx, 'transform', dict(p, T=gen.se3(rng, hi=1e3)))
         if ctx.ncases % 499 == 1:
@@ -564,6 +575,8 @@ def run(ctx):
             shift = np.cross(D, intvec(rng))
             if variant == 'displaced' and not np.any(shift):
                 continue
+            if rng.random() < 0.25:
+                P = np.zeros(3)         # a line through the origin: zero moment, so the direction alone tells a line from its reverse
             p = dict(which=which, P=P, D=D, variant=variant, factor=float(2.0 ** rng.integers(-3, 4)), shift=shift,
                      want=variant in ('same', 'rescaled'))
             if rng.random() < 0.5:
